@@ -90,6 +90,7 @@ func c16CompareFS(mut string) {
 	}
 	O := c16NewFS("O", o)
 	T := c16NewFS("T", t)
+	O.store, T.store = max, max
 	vp.Unwind(12)
 	vp.NoPanic()
 	err := CompareFS(O, T)
@@ -169,10 +170,11 @@ func c16CopyTree(chunkedCopy bool, mut string) {
 	case "extend": // a.txt gains mk >= 1 bytes
 		mk = int(vp.U8("grow") & 31)
 		vp.Assume(mk >= 1)
-		vp.Assume(s.lookup("a.txt").size+mk <= c16Cap)
+		vp.Assume(s.lookup("a.txt").size+mk <= max)
 	}
 	d := c16Dir(".")
 	D := c16NewFS("D", d)
+	S.store, D.store = max, max
 	vp.Unwind(16)
 	vp.NoPanic()
 	err := CopyFileSystem(S, D)
@@ -253,8 +255,12 @@ func c16CopyTree(chunkedCopy bool, mut string) {
 	}
 }
 
-func VP_C16_copy_tree()            { c16CopyTree(false, "none") }
-func VP_C16_copy_tree_chunked()    { c16CopyTree(true, "none") }
+func VP_C16_copy_tree() { c16CopyTree(false, "none") }
+func VP_C16_copy_tree_chunked() {
+	if vp.Thorough() { // piece-wise reading of one file is C16.copy_one_chunked in both tiers
+		c16CopyTree(true, "none")
+	}
+}
 func VP_C16_copy_mut_flip()        { c16CopyTree(false, "flip") }
 func VP_C16_copy_mut_truncate()    { c16CopyTree(false, "truncate") }
 func VP_C16_copy_mut_extend()      { c16CopyTree(false, "extend") }
@@ -271,6 +277,7 @@ func c16CopyFail(onSrc bool, op, p string) {
 	max := vp.Bound("filelen.tree", 3, 6)
 	S := c16NewFS("S", c16SrcTree(max))
 	D := c16NewFS("D", c16Dir("."))
+	S.store, D.store = max, max
 	if onSrc {
 		S.failOp, S.failPath = op, p
 	} else if op == "write" {
@@ -316,6 +323,7 @@ func VP_C16_copy_tree_preexisting() {
 	S := c16NewFS("S", s)
 	d := c16Dir(".", c16Dir("d", c16SymFile("b.bin", "old.b", c16Cap)), c16SymFile("z", "old.z", c16Cap))
 	D := c16NewFS("D", d)
+	S.store, D.store = max, max
 	vp.Unwind(16)
 	vp.NoPanic()
 	err := CopyFileSystem(S, D)
